@@ -182,7 +182,7 @@ PROPS['C10'] = {
     'level_quick': 'exploration', 'level_thorough': 'exploration',
     'rule': 'one evaluation = one seeded steady-state workload (self-re-adding jobs, always-ready descriptors, zero-delay re-arming timers at '
             'seeded priorities, plus finite bursts) run for 50..100000 loop iterations (one epoll_wait = one iteration) at no wall-clock cost; '
-            '(a fifth of the runs: 4..9 always-ready descriptors, mostly at one level); per-level dispatch counts are checked over every window of '
+            '(a fifth of the runs: 4..9 always-ready descriptors, mostly at one level; a quarter of the runs with descriptors: qb_loop_poll_mod to another level, delete and re-add of always-ready descriptors from inside callbacks); per-level dispatch counts are checked over every window of '
             'three iterations and every single item against its bound; non-trivial = at least two callbacks over two iterations; distinct = '
             'distinct event-sequence hash',
     'level_text': 'seeded search over continuously-pending workload mixes and run lengths; window-of-three no-starvation oracle, '
